@@ -51,12 +51,24 @@ FIELDS = [("PC", O_PC), ("BA", O_BA), ("I", O_I), ("X", O_X), ("Y", O_Y), ("U", 
 def batches(tier: str) -> List[Batch]:
     if tier == "quick":
         return [Batch("rs", "rs-machine", 6000, 100), Batch("py", "py-machine", 480, 6),
-                Batch("cross", "py+rs-cross", 320, 5)]
+                Batch("cross", "py+rs-cross", 320, 5), Batch("rs-dev", "rs-machine", 120, 30)]
     return [Batch("rs", "rs-machine", 300000, 300), Batch("py", "py-machine", 16000, 10),
-            Batch("cross", "py+rs-cross", 10000, 10)]
+            Batch("cross", "py+rs-cross", 10000, 10), Batch("rs-dev", "rs-machine", 20000, 100)]
 
 
 def generate(batch: str, r: Rng, idx: int, tier: str) -> Dict[str, Any]:
+    if batch == "rs-dev":
+        # a Rust machine put together by DeviceModel::configure_runtime whose firmware reaches the ROM's serial
+        # routines (answered by a stub) through a far call and a tail jump: every boundary is a crash point
+        from . import c07
+        scn = c07._gen_dev(r)
+        scn["kind"] = "machine"
+        scn["final_state"] = True
+        scn["crashes"] = list(range(1, scn["boundaries"] - 1))
+        scn["crash_seed"] = 0
+        scn["crash_modes"] = {str(k): ["fresh"] for k in scn["crashes"]}
+        scn["dev"] = True
+        return scn
     if batch == "cross":
         feat = machine.gen_features(r.child("feat"), ALLOW)
         feat["off"] = False        # Python has no off state to write (known finding under C12)
@@ -361,8 +373,12 @@ def check(scn: Dict[str, Any], hist: Dict[str, Any]) -> List[Dict[str, Any]]:
                 if name == "irq_deliveries":
                     a, b = a - bobs[k][O_IRQ], b - (pre_r[O_IRQ] if pre_r is not None else robs[k][O_IRQ])
                 if a != b:
+                    where = {"field": name, "crash_state": state}
+                    if scn.get("dev"):
+                        where["level"] = "device_machine"
+                        where["at"] = "rom_stub_entry" if (j > 0 and bobs[j - 1][O_PC] in (0xEB030, 0xEB31C, 0xEB33D)) else "elsewhere"
                     viols.append({"cls": "future_diverges", "executor": ex,
-                                  "where": {"field": name, "crash_state": state},
+                                  "where": where,
                                   "msg": f"crash point {k} ({state}; {','.join(tags) or 'plain'}): {what} {j}: {name} "
                                          f"continued={_short(a)} restored={_short(b)}", "at": j})
                     done = True
